@@ -10,6 +10,7 @@ use serde_json::json;
 use sqldatetime::{Date, IntervalDT, IntervalYM, OracleDate, Time, Timestamp};
 
 const P: &str = "C15";
+const OPNAMES: [&str; 7] = ["json to_string", "json to a too-small writer", "bincode serialize", "bincode into a too-small writer", "json from perturbed string", "json from valid string", "json to_value"];
 
 pub fn layout(kind: Kind) -> &'static str {
     match kind {
@@ -140,7 +141,93 @@ pub fn check_decode_json(kind: Kind, payload: &str) -> Result<bool, String> {
     }
 }
 
+/// One step of a serialization history. op: 0 JSON to_string, 1 JSON into a writer that is too
+/// small (must fail), 2 bincode serialize, 3 bincode into a writer that is too small (must
+/// fail), 4 JSON from a perturbed string, 5 JSON from the valid string, 6 serde_json::to_value.
+pub fn history_step(op: u8, kind: Kind, raw: i128, aux: u32) -> Result<(), String> {
+    let v = Val::new(kind, raw);
+    let lv = ad::to_lib(&v).map_err(|e| format!("value rejected: {e:?}"))?;
+    let text = render(&v, &tokenize(layout(kind)).unwrap()).unwrap().text;
+    let quoted = format!("\"{text}\"");
+    macro_rules! with_val {
+        ($x:ident => $body:expr) => {
+            match &lv {
+                LibVal::Date($x) => $body,
+                LibVal::Time($x) => $body,
+                LibVal::Ts($x) => $body,
+                LibVal::Ora($x) => $body,
+                LibVal::YM($x) => $body,
+                LibVal::DT($x) => $body,
+            }
+        };
+    }
+    guarded(|| -> Result<(), String> {
+        match op % 7 {
+            0 => {
+                let js = to_json(&lv).map_err(|e| format!("to_string failed: {e}"))?;
+                if js != quoted {
+                    return Err(format!("JSON form of {} {raw} is {js}, expected {quoted}", kind.name()));
+                }
+            }
+            1 => {
+                let cap = (aux % 9) as usize;
+                let mut buf = vec![0u8; cap];
+                let r = with_val!(x => serde_json::to_writer(&mut buf[..], x));
+                if r.is_ok() {
+                    return Err(format!("serde_json::to_writer into {cap} bytes succeeded for {quoted}"));
+                }
+            }
+            2 => {
+                let b = to_bin(&lv).map_err(|e| format!("bincode failed: {e}"))?;
+                if b != raw_bytes(kind, raw) {
+                    return Err(format!("binary form of {} {raw} is {b:?}", kind.name()));
+                }
+            }
+            3 => {
+                let cap = (aux % 4) as usize;
+                let mut buf = vec![0u8; cap];
+                let r = with_val!(x => bincode::serialize_into(&mut buf[..], x));
+                if r.is_ok() {
+                    return Err(format!("bincode::serialize_into {cap} bytes succeeded for {} {raw}", kind.name()));
+                }
+            }
+            4 => {
+                let mut sm = SplitMix(aux as u64 ^ raw as u64);
+                let payload = format!("\"{}\"", mutate(&text, &mut sm).replace('\\', "\\\\").replace('"', "\\\""));
+                check_decode_json(kind, &payload)?;
+            }
+            5 => match from_json(kind, &quoted) {
+                Ok(b) if b == v => {}
+                other => return Err(format!("JSON {quoted} deserializes to {other:?}, expected {raw}")),
+            },
+            _ => {
+                let val = with_val!(x => serde_json::to_value(x)).map_err(|e| format!("to_value failed: {e}"))?;
+                if val != serde_json::Value::String(text.clone()) {
+                    return Err(format!("serde_json::to_value of {} {raw} is {val}, expected the string {text:?}", kind.name()));
+                }
+            }
+        }
+        Ok(())
+    })
+    .unwrap_or_else(|p| Err(p))
+}
+
+/// A history: steps executed in order on one thread; every step must behave as it would alone.
+pub fn check_history(steps: &[(u8, usize, i128, u32)]) -> Result<(), String> {
+    for (k, (op, ki, raw, aux)) in steps.iter().enumerate() {
+        history_step(*op, KINDS[*ki % 6], *raw, *aux).map_err(|m| format!("step {k} of the history {:?}: {m}", steps.iter().map(|s| (s.0 % 7, KINDS[s.1 % 6].name(), s.2)).collect::<Vec<_>>()))?;
+    }
+    Ok(())
+}
+
 pub fn eval(case: &Case) -> Verdict {
+    if case.kind == "history" {
+        let steps: Vec<(u8, usize, i128, u32)> = case.i.chunks(4).map(|c| (c[0] as u8, c[1] as usize, c[2], c[3] as u32)).collect();
+        return match check_history(&steps) {
+            Ok(()) => Verdict::Pass,
+            Err(m) => Verdict::Fail(m),
+        };
+    }
     let kind = Kind::from_index(case.i[0] as usize);
     let r = match case.kind.as_str() {
         "roundtrip" => check_roundtrip(kind, case.i[1]),
@@ -333,6 +420,43 @@ pub fn run(ctx: &Ctx) -> (Stats, Report) {
         st.merge(s);
     }
     st.section("json_payloads", &mut mark);
+
+    // histories: sequences of successful and failing (de)serializations on one thread
+    {
+        use proptest::prelude::*;
+        let pools_: Vec<Vec<Val>> = KINDS.iter().map(|k| pools::pool(*k, seed, 200)).collect();
+        let pref = &pools_;
+        let s = pt_run(
+            "C15/histories",
+            seed,
+            (if ctx.thorough { 2_000_000 } else { 120_000 }) / THREADS as u32,
+            THREADS,
+            || proptest::collection::vec((0u8..7, 0usize..6, any::<u32>(), any::<u32>()), 2..=10),
+            |steps: &Vec<(u8, usize, u32, u32)>, st: &mut Stats| {
+                let resolved: Vec<(u8, usize, i128, u32)> = steps.iter().map(|(op, ki, vi, aux)| (*op, *ki, pref[*ki][(*vi as usize) % pref[*ki].len()].raw, *aux)).collect();
+                st.evaluations += resolved.len() as u64;
+                check_history(&resolved)?;
+                let failing = resolved.iter().filter(|s| s.0 % 7 == 1 || s.0 % 7 == 3).count();
+                if failing > 0 && resolved.last().map(|s| s.0 % 7 != 1 && s.0 % 7 != 3).unwrap_or(false) {
+                    st.class("history-with-a-failed-write-before-a-successful-one");
+                    let flat: Vec<i128> = resolved.iter().flat_map(|s| [s.0 as i128, s.1 as i128, s.2, s.3 as i128]).collect();
+                    st.fps.push(hash_ints(0x15a, &flat));
+                } else {
+                    st.class("history-other");
+                }
+                if st.evaluations % 4999 < resolved.len() as u64 {
+                    st.sample(mix64(seed ^ st.evaluations), || json!({"history": resolved.iter().map(|s| json!({"op": OPNAMES[s.0 as usize % 7], "type": KINDS[s.1 % 6].name(), "raw": s.2.to_string()})).collect::<Vec<_>>()}));
+                }
+                Ok(())
+            },
+            |steps: &Vec<(u8, usize, u32, u32)>| {
+                let flat: Vec<i128> = steps.iter().flat_map(|(op, ki, vi, aux)| [*op as i128, *ki as i128, pref[*ki][(*vi as usize) % pref[*ki].len()].raw, *aux as i128]).collect();
+                Case::new(P, "history", flat, vec![])
+            },
+        );
+        st.merge(s);
+    }
+    st.section("serialization_histories", &mut mark);
 
     let rep = Report {
         rule: "Round trips through serde_json and bincode: all dates, every second of the day x {0,1,999999} us, boundary+seeded pools of all six types; the JSON text must equal the reference rendering of the fixed layout in quotes and the binary form the little-endian raw count. Decoding: raw integers at every range limit +-0..3 and +-1e6, the i32/i64 extremes and seeded integers (uniform over the integer width, around the range, inside the range) as bincode payloads of every type (non-whole-second counts for the Oracle date included); JSON payloads made by 1..3 random edits of valid strings plus non-string JSON. Oracle: round trip returns the same value; any other payload yields Err or a value satisfying the range predicate (whole seconds for the Oracle date). Non-trivial = every round-tripped value; out-of-range binary payloads; every perturbed JSON payload (distinct by content).".into(),
